@@ -17,6 +17,7 @@ EXPLANATION = ("Static rules over Simulator._update_schedules, _increase_width a
                "fresh array into which the old content was copied; every arithmetic use of the queue's last timestamp is "
                "guarded against the empty queue; update_pilots sends column i to every EVSE unconditionally."
                ' Added in round 3: the decision table of BaseEVSE.set_pilot (an accepted pilot is latched exactly once also on a vacant station, overrides delegate), semantic forms of the content-preserving growth (zeros + copy, concatenate / hstack with the missing zero block, pad), the loop-structure rules of C01 incl. growth in every period.')
+EXPLANATION += " Added in rounds 4-5: a schedule matrix that starts from pilots already stored, or whose rows are filled from the mapping's value sequence, is recognised and wrong; the unknown-station rejection may be written as an existence test; generic rules G4 / G5."
 NOT_DECIDED = "equality of matrix contents over sequences of schedules; numpy broadcasting of int/float/array rows"
 
 
